@@ -13,6 +13,8 @@ package main
 import (
 	"fmt"
 	"go/types"
+	"sort"
+	"strings"
 )
 
 type qVar struct {
@@ -58,13 +60,30 @@ func (e *Engine) collectCands(st *State) *candSet {
 		seen[k] = true
 		cs.vals = append(cs.vals, v)
 	}
-	for _, v := range st.env {
-		add(v)
+	// deterministic order (map iteration order would make the capped candidate lists, and with them the verdicts, vary
+	// from run to run)
+	var names []string
+	for k := range st.env {
+		names = append(names, k)
+	}
+	sort.Strings(names)
+	for _, k := range names {
+		add(st.env[k])
 	}
 	for i := len(st.stack) - 1; i >= 0 && i >= len(st.stack)-3; i-- {
 		fr := st.stack[i]
+		type rv struct {
+			key string
+			v   Val
+		}
+		var regs []rv
+		for r, v := range fr.regs {
+			regs = append(regs, rv{r.Name() + "@" + fmt.Sprint(r.Pos()), v})
+		}
+		sort.Slice(regs, func(a, b int) bool { return regs[a].key < regs[b].key })
 		n := 0
-		for _, v := range fr.regs {
+		for _, r := range regs {
+			v := r.v
 			if _, isTuple := v.T.(*types.Tuple); isTuple {
 				tp := v.T.(*types.Tuple)
 				for k := 0; k < tp.Len(); k++ {
@@ -291,14 +310,23 @@ func instantiate(p *Term, cs *candSet, extra []Val, budget *int) []*Term {
 }
 
 // groundQuery builds the quantifier-free reduced query of an obligation (nil if nothing was instantiated).
-func groundQuery(o *Obligation) ([]*Term, *Term, bool) {
+func groundQuery(o *Obligation, narrow bool) ([]*Term, *Term, bool) {
 	if o.cands == nil {
 		return nil, nil, false
 	}
 	var extra []Val
 	var hyps []*Term
 	goal := peelGoal(o.Goal, &extra, &hyps)
-	extra = append(extra, termCands(append(append([]*Term{}, o.PC...), o.Goal), 40)...)
+	cands := o.cands
+	if narrow {
+		// narrow level: only the goal's own skolem constants (and their neighbours, added by candidatesFor) are used
+		if len(extra) == 0 {
+			return nil, nil, false
+		}
+		cands = &candSet{}
+	} else {
+		extra = append(extra, termCands(append(append([]*Term{}, o.PC...), o.Goal), 40)...)
+	}
 	budget := 1500
 	var as []*Term
 	any := len(hyps) > 0
@@ -307,7 +335,7 @@ func groundQuery(o *Obligation) ([]*Term, *Term, bool) {
 	for _, p := range all {
 		if hasQuant(p) {
 			quantified = append(quantified, p)
-			ins := instantiate(p, o.cands, extra, &budget)
+			ins := instantiate(p, cands, extra, &budget)
 			if len(ins) > 0 {
 				any = true
 			}
@@ -340,6 +368,37 @@ func groundQuery(o *Obligation) ([]*Term, *Term, bool) {
 			}
 		}
 	}
+	// heap-copy / havoc-frame facts (append, copy, elems() havoc) are quantified over a (reference, index) pair without
+	// type information: instantiate them at the array indices that occur in the goal and in the instances so far
+	{
+		var heapQ []*Term
+		for _, p := range all {
+			heapQ = append(heapQ, untypedForalls(p)...)
+		}
+		if len(heapQ) > 0 {
+			done := map[string]bool{}
+			for round := 0; round < 3; round++ {
+				added := false
+				for qi, q := range heapQ {
+					idx := selectIndices(append(append([]*Term{}, as...), goal), q.Bnd[0].S.W, 120)
+					for _, t := range idx {
+						k := fmt.Sprintf("%d/%d", qi, t.id)
+						if done[k] || budget <= 0 {
+							continue
+						}
+						done[k] = true
+						budget--
+						as = append(as, Subst(q.Args[0], map[*Term]*Term{q.Bnd[0]: t}))
+						added = true
+						any = true
+					}
+				}
+				if !added {
+					break
+				}
+			}
+		}
+	}
 	if !any && goal == o.Goal {
 		return nil, nil, false
 	}
@@ -350,11 +409,11 @@ func groundQuery(o *Obligation) ([]*Term, *Term, bool) {
 // 64-bit values that are no longer in any live frame, results of uninterpreted contract functions): a cheap
 // substitute for E-matching.
 func termCands(ts []*Term, max int) []Val {
-	var out []Val
+	var loopV, ufA, other []*Term
 	seen := map[*Term]bool{}
 	var walk func(t *Term)
 	walk = func(t *Term) {
-		if t == nil || seen[t] || len(out) >= max {
+		if t == nil || seen[t] {
 			return
 		}
 		seen[t] = true
@@ -362,11 +421,15 @@ func termCands(ts []*Term, max int) []Val {
 			switch t.Op {
 			case OVar:
 				if len(t.Args) == 0 && !isFreshRef(t) {
-					out = append(out, Val{types.Typ[types.Int], []*Term{t}})
+					if strings.HasPrefix(t.Name, "loop!") || strings.HasPrefix(t.Name, "sk_") {
+						loopV = append(loopV, t)
+					} else {
+						other = append(other, t)
+					}
 				}
 			case OApp:
-				if len(t.Name) > 3 && t.Name[:3] == "uf!" {
-					out = append(out, Val{types.Typ[types.Int], []*Term{t}})
+				if strings.HasPrefix(t.Name, "uf!") {
+					ufA = append(ufA, t)
 				}
 			}
 		}
@@ -377,6 +440,62 @@ func termCands(ts []*Term, max int) []Val {
 			if qi := quantInfo[t]; qi != nil {
 				walk(qi.Body)
 			}
+		}
+	}
+	for _, t := range ts {
+		walk(t)
+	}
+	// loop counters and contract-function results first: they are the usual witnesses
+	var out []Val
+	for _, grp := range [][]*Term{loopV, ufA, other} {
+		for _, t := range grp {
+			if len(out) >= max {
+				return out
+			}
+			out = append(out, Val{types.Typ[types.Int], []*Term{t}})
+		}
+	}
+	return out
+}
+
+// untypedForalls: top-level (possibly conjoined) universal assumptions over one bound bit-vector that carry no
+// contract-level type information (built by the executor itself for block copies and frame conditions).
+func untypedForalls(p *Term) []*Term {
+	switch p.Op {
+	case OForall:
+		if quantInfo[p] == nil && len(p.Bnd) == 1 && p.Bnd[0].S.Kind == SBV && !p.hasBound {
+			return []*Term{p}
+		}
+	case OAnd:
+		var out []*Term
+		for _, a := range p.Args {
+			out = append(out, untypedForalls(a)...)
+		}
+		return out
+	}
+	return nil
+}
+
+// selectIndices: ground terms of the given bit width used as array indices.
+func selectIndices(ts []*Term, width int, max int) []*Term {
+	var out []*Term
+	seen := map[*Term]bool{}
+	have := map[*Term]bool{}
+	var walk func(t *Term)
+	walk = func(t *Term) {
+		if t == nil || seen[t] {
+			return
+		}
+		seen[t] = true
+		if (t.Op == OSelect || t.Op == OStore) && len(t.Args) >= 2 {
+			ix := t.Args[1]
+			if ix.S != nil && ix.S.Kind == SBV && ix.S.W == width && !ix.hasBound && !have[ix] && len(out) < max {
+				have[ix] = true
+				out = append(out, ix)
+			}
+		}
+		for _, a := range t.Args {
+			walk(a)
 		}
 	}
 	for _, t := range ts {
